@@ -114,6 +114,35 @@ C14_PART = (G, "gosym_part", dict(name="c14_type_plans", entry="internal/zzverif
                                   assumptions=["head tables in harness/go/internal/zzverif/zz_plan.go give the meaning of each runtime entry point",
                                                "type shapes limited to the generator in zz_gen.go (depth bound; union = 2 cases (+null); records 1-2 fields; one generic parameter)"]))
 
+C08X_ASSUME = ["expression trees: leaf | -e | e as T | e op e with op in {+,-,*,/,**}; family 0: every tree of nesting depth <= d over field leaves (each leaf a different field, "
+               "int and double fields alternating so that validation inserts implicit conversions); family 1: every tree of depth <= l whose leaves are fields, the negative integer "
+               "literal -3 or the floating-point literal 1.5; quick d=2, l=1; thorough d=3 (only one operand of a depth-3 binary operator is deeper than 1), l=2",
+               "the operand of a unary minus is never a literal (the expression parser folds -literal into the literal); conversions to int, float, double, long",
+               "subscripts, size()/dimension functions, switch expressions, nested-record member access and computed-field references are outside this part (C10 forms / pysym C19 cover them differently)",
+               "reader grammars: C++ [expr] precedence table (unary > * / % > + - > shifts > relational > equality > & ^ | && ||, all left-associative; maximal munch, so `--` / `++` are "
+               "decrement / increment); Python reference 6.17 (** right-associative and binding tighter than a unary operator on its left); MATLAB operator precedence (^ left-associative, "
+               "binding tighter than unary minus on its left, unary operators allowed directly after ^)"]
+
+C08_CPP_EXPR_PART = (G, "gosym_part", dict(name="c08_cpp_computed_expr", entry="internal/zzverif.C08CppExpr", args_quick=(2, 1), args_thorough=(3, 2),
+                                      extra_thorough=("-max-paths", "200000"),
+                                      required_sites=("cpp-text-is-one-complete-expression", "cpp-expression-has-no-side-effect", "cpp-expression-denotes-the-source-tree"),
+                                      assumptions=C08X_ASSUME,
+                                      desc="real dsl.Validate on a record with one computed field, the resolved expression through the real cpp/types.writeComputedFieldExpression; the emitted text is "
+                                           "read back by a C++ expression reader (tokens by maximal munch, C++ precedence and associativity, static_cast<T>(e), calls, member access): it is one "
+                                           "complete expression, contains no increment / decrement / assignment operator (the accessor is a const member function), and denotes exactly the tree "
+                                           "of the resolved source expression, with std::pow(a, b) read as a ** b, static_cast<T> as a conversion to the documented C++ type, and field names "
+                                           "mapped to the members the struct in types.h declares (read back)"))
+
+C19_SCRIPT_EXPR_PART = (G, "gosym_part", dict(name="c19_script_computed_expr", entry="internal/zzverif.C19ScriptExpr", args_quick=(2, 1), args_thorough=(3, 2),
+                                         extra_thorough=("-max-paths", "200000"),
+                                         required_sites=("python-body-is-one-return-statement", "python-text-is-one-complete-expression", "python-expression-denotes-the-source-tree",
+                                                         "matlab-body-is-one-assignment-to-res", "matlab-text-is-one-complete-expression", "matlab-expression-denotes-the-source-tree"),
+                                         assumptions=C08X_ASSUME,
+                                         desc="the same trees through the real python/types and matlab/types writeComputedFieldExpression: the body is one `return <expr>` / `res = <expr>; return`, "
+                                              "and <expr>, read back with the Python / MATLAB precedence and associativity rules (** right-associative, ^ left-associative, both binding tighter "
+                                              "than a unary minus on their left; // and / read as division, .* ./ as the element-wise operators), denotes the tree of the resolved source "
+                                              "expression with int()/float() resp. int32()/int64()/single()/double() read as the documented conversions: the three emitters denote the same tree"))
+
 C14_TRIVIAL_PART = (G, "gosym_part", dict(name="c14_memcpy_guard", entry="internal/zzverif.C14TriviallySerializable", args_quick=(3,), args_thorough=(4,),
                                      required_sites=("specialization-is-for-the-record-type", "guard-is-a-known-constant-expression", "memcpy-only-if-standard-layout",
                                                      "memcpy-only-if-every-field-trivially-serializable", "memcpy-only-if-members-in-field-order", "memcpy-only-if-no-padding"),
@@ -204,7 +233,21 @@ def c10_yaml_part(ctx, quick=True, depth=1, pairs=2, items=2, name=None):
     return spec if quick else only_thorough(spec)
 
 
-C10_YAML = [c10_yaml_part(0), c10_yaml_part(5), c10_yaml_part(6, depth=0), c10_yaml_part(10, pairs=1, items=2), c10_yaml_part(3, quick=False), c10_yaml_part(1, quick=False), c10_yaml_part(2, quick=False),
+C10_MANIFEST_PART = (G, "gosym_part", dict(name="c10_manifest", entry="internal/zzverif.C10Manifest", args_quick=(1, 1, 1), args_thorough=(2, 1, 1), key_fn=c10_yaml_key,
+                                           extra_quick=("-max-paths", "60000"), extra_thorough=("-max-paths", "400000"),
+                                           required_sites=("manifest-reader-does-not-panic", "decode-error-has-line", "accepted-manifest-has-namespace"),
+                                           assumptions=YAML_ASSUME[:1] + [
+                                               "the real packaging.readPackageInfo on a virtual package directory; yaml.NewDecoder(file).Decode(&PackageInfo) is the engine's model of yaml.v3 decoding into "
+                                               "structs (fields by yaml tag, KnownFields, duplicate keys, scalars into string / bool / int, collected type errors, Unmarshaler dispatch incl. the "
+                                               "alias-typed re-decode of the codegen options), validated against the real library by the native replays",
+                                               "manifest documents: a mapping with an optional valid namespace and 1 (2) further pairs, key over the 7 manifest fields and an unknown one, value an arbitrary "
+                                               "node of depth <= 1 (mapping / sequence of <= 1 entry; 8 scalar forms; sub-keys over option names, a version label, an ill-formed label, an unknown name, a "
+                                               "non-string key), or a scalar / null / sequence document",
+                                               "errors of validate() (missing / ill-cased namespace, version label format, empty output directory) name the manifest but carry no line: the manifest's "
+                                               "positions are not kept after decoding; only decode-stage errors are required to carry a line"],
+                                           desc="totality of the manifest reader: no panic, a manifest or an error, every error names _package.yml, every decoding error carries a line"))
+
+C10_YAML = [C10_MANIFEST_PART, c10_yaml_part(0), c10_yaml_part(5), c10_yaml_part(6, depth=0), c10_yaml_part(10, pairs=1, items=2), c10_yaml_part(3, quick=False), c10_yaml_part(1, quick=False), c10_yaml_part(2, quick=False),
             c10_yaml_part(4, quick=False), c10_yaml_part(6, quick=False, name="c10_yaml_ctx6_switch"), c10_yaml_part(11, quick=False, pairs=1, items=2), c10_yaml_part(12, quick=False, pairs=1, items=2)]
 
 def c13_layout_part(bad, name, sites, desc):
@@ -355,7 +398,7 @@ C04_DETERMINES_PART = (G, "gosym_part", dict(name="c04_determines", entry="inter
                                     "schema text differs whenever the edit changes the wire plan, and is identical otherwise"))
 
 # ---- emitted C++ schema tables (protocols.h + protocols.cc read back as one translation unit) --
-C04_CPP_SCHEMAS_PART = (G, "gosym_part", dict(name="c04_cpp_schema_tables", entry="internal/zzverif.C04CppSchemas", args_quick=(2, 4, 3), args_thorough=(3, 5, 4),
+C04_CPP_SCHEMAS_PART = (G, "gosym_part", dict(name="c04_cpp_schema_tables", entry="internal/zzverif.C04CppSchemas", args_quick=(2, 6, 3), args_thorough=(3, 6, 4),
                                extra_thorough=("-max-paths", "400000"),
                                required_sites=("documented-compatible-changes-accepted", "emitted-unit-understood", "static-initialised-before-use", "version-enum-lists-each-label-once",
                                                "schema-member-carries-current-schema", "header-schema-is-that-versions-schema", "schema-of-listed-version-accepted",
@@ -466,8 +509,26 @@ C13_IMPORTED_GENERICS = (G, "gosym_part", dict(name="c13_order_imported_generics
                                     "types, listed in every order: accepted in every order, identical schema text / plans / serializer expressions, and every local definition listed "
                                     "after the local definitions it mentions (also inside type arguments of imported generics)"))
 
+C19_CONV = dict(required_sites=("operand-is-the-declared-field", "operand-is-brought-to-the-result-type", "intermediate-holds-every-operand-value-the-result-type-holds"),
+                assumptions=["specification lattice (harness, from the documented primitive types): integers by signedness and bits, float32 / complexfloat32 component = 24-bit significand, "
+                             "float64 / complexfloat64 component = 53-bit significand; an intermediate type I of a chain S -> ... -> R is sound iff it holds every value of S or every (real) value of R",
+                             "every backend emits one cast per TypeConversionExpression node of the resolved tree (C++ static_cast, MATLAB single()/double(), Python float()/complex()); the emitters' "
+                             "casts themselves are covered by c19_py_computed"],
+                desc="real dsl.Validate (resolveComputedFields, insertConversion, adjustConversion, GetCommonType) for symbolic numeric primitive types S, T (13 x 13) where a conversion arises "
+                     "(arg 0: `a as T`; 1: `a op b` and `b op a`, 5 operators; 2: unification of switch-case expressions): the chain of TypeConversionExpression nodes above each operand starts at the "
+                     "operand's declared type, ends at (the representation of) the static type of the expression, keeps a complex operand complex, and every intermediate type "
+                     "can represent every operand value that the result type can represent")
+C20V_ASSUME = ["versions scenario: the YAML decoding of _package.yml and model.yml is replaced by token readers of the same files; LoadPackage, collectPackages, collectVersions, "
+               "fetchAndCachePackages, GetAllReferencedPackages, validatePackage, dsl.Validate, dsl.ValidateEvolution (incl. GetProtocolSchemaString of the predecessors) are real",
+               "the C++ generator (the only backend whose output depends on predecessor versions) is replaced under gosym by a stand-in that writes, per version label and protocol, the previous "
+               "schema text computed by the real ValidateEvolution or 'unchanged'; natively the real C++ generator runs and whole output trees are compared"]
+C20V_DESC = ("package Main with imports ../imp (namespace Imp) and two predecessor versions v1 (imports ../impold, also namespace Imp) and v2 (imports ../imp), C++ and JSON output: after start-up the "
+             "watch list contains every directory of the closure (main, imp, v1, impold, v2); every save lands in a symbolic one of the five directories with symbolic content (field type long / "
+             "unknown type / int, symbolic 64-bit tag in the record comment); after quiescence the output equals the one-shot output for the final contents, the watcher is alive, cwd is the package directory")
 PARTS = {
     "C08": [
+        C08_CPP_EXPR_PART,      # emitted C++ computed-field expressions are well-formed expressions without side effects
+        C19_SCRIPT_EXPR_PART,   # likewise the Python and MATLAB ones
         C13_IMPORTED_GENERICS,   # definitions come out dependencies-first (also through type arguments of imported generics): generated Python modules import, C++ declares before use
         (G, "gosym_part", dict(name="c08_python_package", entry="internal/zzverif.C08PythonPackage",
                                required_sites=("generation-does-not-panic", "generation-succeeds", "imported-module-was-generated", "ndjson-written-iff-enabled"),
@@ -546,12 +607,17 @@ PARTS = {
     ],
     "C19": [
         (PYG, "c19_py_computed", dict()),
+        C08_CPP_EXPR_PART,      # the C++ text denotes the tree of the source expression
+        C19_SCRIPT_EXPR_PART,   # and so do the Python and MATLAB texts
         (G, "gosym_part", dict(name="c19_static_types", entry="internal/zzverif.C19Types",
                                required_sites=("accept-reject-independent-of-operand-order", "type-independent-of-operand-order", "integer-power-is-float64", "result-kind-is-widest-operand-kind"),
                                assumptions=["documented rule used: `**` on integers yields float64 (docs/*/language.md); otherwise the result kind is the widest operand kind "
                                             "(integer < floating point < complex) and, for same-kind operands, at least as wide as both"],
                                desc="real dsl.Validate (resolveComputedFields, GetCommonType, insertConversion) on `a op b` and `b op a` for symbolic numeric primitive types of a, b "
                                     "(13 x 13) and all 5 operators: accept/reject and static type do not depend on operand order; kind/width of the result")),
+        (G, "gosym_part", dict(name="c19_conversion_chains_cast", entry="internal/zzverif.C19Conversions", args_quick=(0,), args_thorough=(0,), **C19_CONV)),
+        (G, "gosym_part", dict(name="c19_conversion_chains_binary", entry="internal/zzverif.C19Conversions", args_quick=(1,), args_thorough=(1,), **C19_CONV)),
+        (G, "gosym_part", dict(name="c19_conversion_chains_switch", entry="internal/zzverif.C19Conversions", args_quick=(2,), args_thorough=(2,), **C19_CONV)),
     ],
     "C10": [C10_FORMS[f] for f in (0, 1, 3, 4, 5)] + [only_thorough(C10_FORMS[f]) for f in (2, 6)] + C10_SHAPES + [C10_GRAPH_PART, C10_PARSER_PART, C10_DEFUSE_PART] + C10_YAML,  # C10_GRAPH_PART: no hang / panic of the package loader for any import graph
     "C09": [
@@ -605,6 +671,8 @@ PARTS = {
         (CC, "c01_cc_serializers", dict(tiers=("thorough",))),
         (PY, "c01_py_kernels", dict()),
         (PYG, "c01_py_generated", dict()),
+        ("py_numpy", "c17_py_block_headers", dict()),   # stream block headers with a symbolic 64-bit length
+        ("py_numpy", "c03_py_array_layouts", dict()),   # arrays of every memory layout are written in logical row-major order and read back
         C14_PART,
         C14_TRIVIAL_PART,   # the memcpy fast path writes exactly the field-by-field bytes of docs/reference/binary.md (no padding)
         C01_CPP_PROTO_WRITER,
@@ -613,6 +681,7 @@ PARTS = {
     ],
     "C03": [
         (PY, "c03_py_capacity", dict()),
+        ("py_numpy", "c03_py_array_layouts", dict()),   # the bytes of an array do not depend on its memory layout (C / Fortran order, transposed or strided views)
         (PY, "c02_py_converters", dict()),   # NDJSON converters + NDJsonProtocolReader line look-ahead (binary <-> NDJSON copies)
         C02_NULLFORM_PART,   # both languages read both renderings of the null case of a tagged nullable union
         C14_PART,
@@ -627,6 +696,7 @@ PARTS = {
         (CC, "c17_cc_blocks", dict()),
         (CC, "c17_cc_reuse", dict()),
         (PY, "c17_py_batching", dict()),
+        ("py_numpy", "c17_py_block_headers", dict()),   # block header = varint of a symbolic 64-bit block length (1..10 bytes), read and write side
         C01_CPP_PROTO_WRITER,   # how a writer's items are batched (incl. empty batches) never shows on the wire except as block boundaries
         C05_NESTED_READ,   # element-wise conversions of batch reads go through a fresh item and reset their target: no item depends on what the destination held before
     ],
@@ -721,6 +791,18 @@ PARTS = {
         (G, "gosym_part", dict(name="c18_depth_ok", entry="pkg/packaging.VerifC18Depth", args_quick=(10,), args_thorough=(9,),
                                required_sites=("within-limit-accepted",), assumptions=C18_ASSUME, key_fn=c18_key,
                                desc="chains within the limit are accepted")),
+        (G, "gosym_part", dict(name="c18_depth_threshold", entry="pkg/packaging.VerifC18DepthThreshold", args_quick=(2,), args_thorough=(4,),
+                               required_sites=("accepted-chain-stays-accepted-one-import-shorter", "depth-verdict-independent-of-last-package-having-imports",
+                                               "nesting-below-limit-accepted", "nesting-at-or-beyond-limit-rejected", "loader-does-not-panic"),
+                               assumptions=C18_ASSUME + ["the docs do not state the nesting limit; assumed from the constant and the unchanged loader: MaxImportRecursionDepth counts the packages "
+                                                         "on an import path including the root, i.e. a chain p0 -> ... -> pn of n nested imports is accepted iff n < MaxImportRecursionDepth "
+                                                         "(sites nesting-*); the other sites are relational and independent of where the threshold lies",
+                                                         "a package that is already loaded when an import reaches it adds no nesting (behaviour of the unchanged loader; the order dependence this "
+                                                         "implies for shortcut imports INTO a chain is the known finding c18:too-deep-chain-accepted-when-shortcut-import-listed-first and is not used here: "
+                                                         "the already loaded package is off the chain and has no imports)"],
+                               desc="linear import chain p0 -> ... -> pn, n symbolic in [limit-span, limit+span] around the real MaxImportRecursionDepth (arg: span), ending in a leaf or in a package "
+                                    "that imports an already loaded import-free package listed first by a symbolic earlier chain member (root ... parent of pn): real LoadPackage on chain n, chain n-1 and "
+                                    "the leaf-terminated chain n: accepted(n) => accepted(n-1); same verdict for both endings; accepted iff n < limit")),
     ],
     "C12": [
         (G, "gosym_part", dict(name="c12_diagnostics_map_order", entry="internal/zzverif.C12DiagnosticsMapOrder", args_quick=(2, 12), args_thorough=(2, 12),
@@ -869,6 +951,16 @@ PARTS = {
                                required_sites=("converged-to-one-shot-output", "cwd-is-package-dir-when-idle", "watcher-keeps-running"),
                                assumptions=C20_ASSUME,
                                desc="the same three saves without waiting: every interleaving within the preemption bound", tiers=("thorough",))),
+        (G, "gosym_part", dict(name="c20_versions_sequential", entry="internal/cmd.VerifC20Versions", args_quick=(2, 0, 0, 2), args_thorough=(3, 0, 0, 2),
+                               extra_quick=("-replay-sample", "4"), extra_thorough=("-replay-sample", "8", "-max-paths", "3000000"),
+                               required_sites=("every-referenced-directory-watched", "converged-to-one-shot-output", "invalid-final-contents-leave-output-untouched",
+                                               "cwd-is-package-dir-when-idle", "watcher-keeps-running"),
+                               assumptions=C20_ASSUME + C20V_ASSUME,
+                               desc=C20V_DESC + "; patient editor (waits for the watcher to go idle between saves; args: saves, impatient=0, preemptions=0, number of field types)")),
+        (G, "gosym_part", dict(name="c20_versions_interleaved", entry="internal/cmd.VerifC20Versions", args_quick=(2, 1, 1, 1), args_thorough=(2, 1, 1, 1), tiers=("thorough",),
+                               extra_quick=("-replay-sample", "4", "-max-paths", "3000000"), extra_thorough=("-replay-sample", "4", "-max-paths", "3000000"),
+                               required_sites=("every-referenced-directory-watched", "converged-to-one-shot-output", "watcher-keeps-running"),
+                               assumptions=C20_ASSUME + C20V_ASSUME, desc=C20V_DESC + "; impatient editor: two saves (field type long), every interleaving within one preemption")),
     ],
     "C14": [
         (G, "gosym_part", dict(name="c14_type_plans", entry="internal/zzverif.C14Type", args_quick=(1, 1), args_thorough=(2, 1),
@@ -1010,7 +1102,9 @@ CLAIMS_ADDENDA = {
            "value step = one value; a stream write = non-empty blocks carrying exactly the items passed; End = the single 0 length; readers consume a length only when the block is exhausted.",
     "C02": "Added: map cases over all 18 key primitives (object only for string keys, also in the runtime: pysym); NDJsonProtocolReader line look-ahead over protocol patterns with "
            "several stream steps; (gosym) the emitted C++ flags/enum NDJSON converters denote the documented mapping and round-trip for a symbolic definition and a symbolic 64-bit value.",
-    "C03": "Added: the NDJSON converter and protocol-line parts (binary <-> NDJSON copies) are part of this check as well.",
+    "C03": "Added: the NDJSON converter and protocol-line parts (binary <-> NDJSON copies) are part of this check as well. "
+           "Added: (pysym) fixed / n-d / dynamic array serializers on logical arrays with an explicit memory layout (C order, Fortran order, transposed and axis-permuted views, strided slices; "
+           "symbolic elements, bulk and element-wise paths): bytes = reference encoding of the elements in logical row-major order, and the reference encoding reads back as the logical array.",
     "C04": "Added: the model has a fixed array with unnamed dimensions, a dynamic array, and a record of an imported namespace sharing its simple name with a local one; every backend "
            "(C++, Python, MATLAB) embeds exactly the schema text once and readers refer to the writer's; the emitted C++ schema tables (schema_, previous_schemas_, SchemaFromVersion) "
            "are evaluated with C++ static-initialisation-order semantics: the header written for every Version carries that version's own schema text.",
@@ -1040,9 +1134,13 @@ CLAIMS_ADDENDA = {
     "C15": "Added: wire-different models have different schema texts (the C04 'determines' part) and every backend embeds exactly that text; the emitted C++ VersionFromSchema "
            "accepts exactly the schema texts of the listed versions and refuses every other text, incl. the empty one.",
     "C16": "Added: bulk reads (read_view / read_bytearray, all three code paths incl. count larger than the buffer) return only bytes the stream holds.",
-    "C17": "Added: returned items (arrays, strings, containers of arrays) share no memory with the reader buffer and are unchanged by later reads / refills; the emitted C++ stream writer's block structure.",
+    "C17": "Added: returned items (arrays, strings, containers of arrays) share no memory with the reader buffer and are unchanged by later reads / refills; the emitted C++ stream writer's block structure. "
+           "Added: (pysym) the block length in a stream block header is a symbolic 64-bit value (varint of 1..10 bytes): StreamSerializer.read consumes exactly the header and delivers the block's items, "
+           "StreamSerializer.write of a list of symbolic length n emits varint(n).",
     "C18": "Added: termination as an obligation on every graph; every import-list order; the namespace graph built by parsePackageNamespaces mirrors the import graph.",
-    "C19": "Added: all 2 x 25 nestings of {+,-,*,/,**} over three operands plus 15 unary-minus placements on symbolic operands ((-x) ** y repaired by 641186f).",
+    "C19": "Added: all 2 x 25 nestings of {+,-,*,/,**} over three operands plus 15 unary-minus placements on symbolic operands ((-x) ** y repaired by 641186f). "
+           "Added: (pysym) computed fields over elements of array fields and over scalar fields holding numpy scalars (numpy's fixed-width integer semantics modelled and validated against real numpy): "
+           "exact value whenever the declared result type holds it.",
 }
 for _k, _v in CLAIMS_ADDENDA.items():
     CLAIMS[_k]["text"] = CLAIMS[_k]["text"] + " " + _v
